@@ -60,24 +60,27 @@ const (
 
 // ReqSpec is one request of a scenario.
 type ReqSpec struct {
-	Upload       int    `json:"upload"` // -1: GET without body
-	UnknownLen   bool   `json:"unknown_len,omitempty"`
-	BigHeader    int    `json:"big_header,omitempty"`
-	RespSize     int    `json:"resp"`
-	RespChunk    int    `json:"resp_chunk"`
-	RespPad      int    `json:"resp_pad,omitempty"` // pad length per DATA frame (0 = unpadded)
-	EndOnHeaders bool   `json:"end_on_headers,omitempty"`
-	SepEnd       bool   `json:"sep_end,omitempty"`    // END_STREAM on a separate empty DATA frame
-	RespEarly    bool   `json:"resp_early,omitempty"` // respond before the upload finished
-	NoCL         bool   `json:"no_cl,omitempty"`
-	Status       int    `json:"status,omitempty"`   // response status (0 = 200); >= 300 with RespEarly makes the client give the upload up
-	CLShort      int    `json:"cl_short,omitempty"` // declared Content-Length is that much smaller than the body sent
-	App          string `json:"app"`
-	AppArg       int    `json:"app_arg,omitempty"`    // prefix / cancel point / chunk size
-	RstUpload    int    `json:"rst_upload,omitempty"` // peer RST_STREAM after that many upload bytes (>0)
-	RstDownload  int    `json:"rst_download,omitempty"`
-	StartDelayUs int    `json:"start_delay_us,omitempty"`
-	HoldRead     bool   `json:"hold_read,omitempty"` // app waits until the peer is window-blocked / done (S3)
+	Upload       int         `json:"upload"` // -1: GET without body
+	UnknownLen   bool        `json:"unknown_len,omitempty"`
+	BigHeader    int         `json:"big_header,omitempty"`
+	RespSize     int         `json:"resp"`
+	RespChunk    int         `json:"resp_chunk"`
+	RespPad      int         `json:"resp_pad,omitempty"` // pad length per DATA frame (0 = unpadded)
+	EndOnHeaders bool        `json:"end_on_headers,omitempty"`
+	SepEnd       bool        `json:"sep_end,omitempty"`    // END_STREAM on a separate empty DATA frame
+	RespEarly    bool        `json:"resp_early,omitempty"` // respond before the upload finished
+	NoCL         bool        `json:"no_cl,omitempty"`
+	PadOnly      int         `json:"pad_only,omitempty"`  // that many padding-only DATA frames (no data bytes) before the body
+	Gated        bool        `json:"gated,omitempty"`     // the request starts when the peer script says so (action start-req)
+	AckBatch     [][2]uint32 `json:"ack_batch,omitempty"` // a SETTINGS frame written in ONE write with the header-only response
+	Status       int         `json:"status,omitempty"`    // response status (0 = 200); >= 300 with RespEarly makes the client give the upload up
+	CLShort      int         `json:"cl_short,omitempty"`  // declared Content-Length is that much smaller than the body sent
+	App          string      `json:"app"`
+	AppArg       int         `json:"app_arg,omitempty"`    // prefix / cancel point / chunk size
+	RstUpload    int         `json:"rst_upload,omitempty"` // peer RST_STREAM after that many upload bytes (>0)
+	RstDownload  int         `json:"rst_download,omitempty"`
+	StartDelayUs int         `json:"start_delay_us,omitempty"`
+	HoldRead     bool        `json:"hold_read,omitempty"` // app waits until the peer is window-blocked / done (S3)
 }
 
 // Action is one scripted peer action; it fires once the previous one has fired
@@ -86,7 +89,7 @@ type Action struct {
 	TrigUp    int         `json:"trig_up,omitempty"`   // total upload DATA bytes received
 	TrigDown  int         `json:"trig_down,omitempty"` // total response DATA bytes sent
 	TrigTicks int         `json:"trig_ticks"`          // peer ticks since the previous action (fallback)
-	Kind      string      `json:"kind"`                // settings | wu | goaway
+	Kind      string      `json:"kind"`                // settings | wu | goaway | pause-read | resume-read | start-req (Inc = request index)
 	Settings  [][2]uint32 `json:"settings,omitempty"`
 	Inc       uint32      `json:"inc,omitempty"`
 }
@@ -170,6 +173,15 @@ func (sc *Scenario) Desc() string {
 		if r.Status != 0 {
 			fmt.Fprintf(&b, " status=%d", r.Status)
 		}
+		if r.PadOnly > 0 {
+			fmt.Fprintf(&b, " padonly=%d", r.PadOnly)
+		}
+		if r.Gated {
+			b.WriteString(" gated")
+		}
+		if r.AckBatch != nil {
+			fmt.Fprintf(&b, " ackbatch=%v", r.AckBatch)
+		}
 		fmt.Fprintf(&b, " app=%s/%d", r.App, r.AppArg)
 		if r.RstUpload > 0 {
 			fmt.Fprintf(&b, " rstup=%d", r.RstUpload)
@@ -186,7 +198,7 @@ func (sc *Scenario) Desc() string {
 		if a.Kind == "settings" {
 			fmt.Fprintf(&b, "%v", a.Settings)
 		}
-		if a.Kind == "wu" {
+		if a.Kind == "wu" || a.Kind == "start-req" {
 			fmt.Fprintf(&b, "+%d", a.Inc)
 		}
 	}
@@ -314,6 +326,9 @@ func randomScenario(idx int, seed uint64, rng *hk.Rand) *Scenario {
 		r.RespChunk = chunkFor(rng, r.RespSize)
 		if rng.Chance(20) {
 			r.RespPad = hk.Pick(rng, []int{1, 7, 255})
+			if r.RespSize > 0 && rng.Chance(50) {
+				r.PadOnly = rng.Range(1, 6) // padding counts against the windows even without a data byte
+			}
 		}
 		if r.RespSize == 0 {
 			r.EndOnHeaders = rng.Bool()
@@ -615,6 +630,58 @@ func specialScenarios(start int, seed uint64, thorough bool) []*Scenario {
 			}
 			add(sc)
 		}
+	}
+	// S11: DATA frames that carry nothing but padding (PADDED flag, zero data bytes) count against
+	// both windows; the client has to debit them and to return the credit. The peer spends most
+	// of a small stream window on them before the body.
+	for _, w := range []uint32{8192, 65535} {
+		sc := defaultScenario(0, seed, fmt.Sprintf("S11-padding-only-data-%d", w))
+		sc.FP = Fingerprint{Kind: "custom", Settings: [][2]uint32{{2, 0}, {4, w}}}
+		sc.PeerSettings = [][2]uint32{{3, 100}}
+		sc.Reqs = []ReqSpec{
+			{Upload: -1, RespSize: int(w), RespChunk: 4097, RespPad: 255, PadOnly: int(w) / 256, App: appReadAll},
+			{Upload: -1, RespSize: 3000, RespChunk: 1000, RespPad: 7, PadOnly: 5, App: appPrefixClose, AppArg: 1000, StartDelayUs: 2000},
+			{Upload: -1, RespSize: 0, RespChunk: 1000, RespPad: 1, PadOnly: 3, App: appReadAll, StartDelayUs: 2000},
+		}
+		add(sc)
+	}
+	// S12: the interleaving behind the stream-slot re-check, built deterministically. Strict limit 2,
+	// stream 1 uploads; the peer stops reading, so the upload blocks in Write holding the write
+	// lock; the peer lowers MAX_CONCURRENT_STREAMS to 1 (the read loop queues on the write lock);
+	// then request B starts (sees a free slot, queues behind the read loop); the peer resumes
+	// reading: the SETTINGS frame is applied and acknowledged first, so B has to wait for the slot.
+	for _, gap := range []int{10, 25} {
+		sc := defaultScenario(0, seed, fmt.Sprintf("S12-slot-recheck-under-write-lock-%d", gap))
+		sc.Strict = true
+		sc.C2PBuf = 2048
+		sc.TickUs = 1000
+		sc.PeerSettings = [][2]uint32{{3, 2}, {4, 1 << 20}}
+		sc.InitConnWU = 1 << 22
+		sc.Reqs = []ReqSpec{
+			{Upload: 250000, RespSize: 1, RespChunk: 16384, App: appReadAll},
+			{Upload: -1, RespSize: 10, RespChunk: 16384, App: appReadAll, Gated: true},
+			{Upload: 1000, RespSize: 10, RespChunk: 16384, App: appReadAll, Gated: true},
+		}
+		sc.Actions = []Action{
+			{TrigUp: 30000, TrigTicks: 400, Kind: "pause-read"},
+			{TrigTicks: gap, Kind: "settings", Settings: [][2]uint32{{3, 1}}},
+			{TrigTicks: gap, Kind: "start-req", Inc: 1},
+			{TrigTicks: gap, Kind: "start-req", Inc: 2},
+			{TrigTicks: gap, Kind: "resume-read"},
+		}
+		add(sc)
+	}
+	// S13: a SETTINGS frame that reaches the client in the same read as a complete header-only
+	// response, after which the client has nothing to write: the acknowledgement must still
+	// arrive (the harness waits for it on the idle connection before it sends anything else).
+	for _, set := range [][][2]uint32{{{4, 70000}}, {}} {
+		sc := defaultScenario(0, seed, fmt.Sprintf("S13-settings-ack-on-idle-connection-%d", len(set)))
+		sc.PeerSettings = [][2]uint32{{3, 100}}
+		sc.Reqs = []ReqSpec{{Upload: -1, RespSize: 0, RespChunk: 16384, EndOnHeaders: true, AckBatch: set, App: appReadAll, StartDelayUs: 20000}}
+		if set == nil {
+			sc.Reqs[0].AckBatch = [][2]uint32{}
+		}
+		add(sc)
 	}
 	// S4: SETTINGS applied+acked between awaitFlowControl and the DATA write.
 	reps := 2
